@@ -32,8 +32,9 @@ static const char* HF1 = "det2 (full_t $N c) <> 0";
 static const char* HF0 = "det2 (full_t $N b) <> 0";
 
 // one converter  R <- S
+// proof = false: execution only (see tt.hxx), for the instances whose proof is too expensive (listed in NOTES.md)
 template <TO::Flag R, TO::Flag S, unsigned short N>
-void conv(const std::string& name, int tier, const std::string& hyp = "") {
+void conv(const std::string& name, int tier, const std::string& hyp = "", bool proof = true) {
   constexpr char ks = kind_of_flag(S), kr = kind_of_flag(R);
   reg(name, N, std::string(1, ks) + "tts", kr, [](const auto& in) {
     using T = TSC;
@@ -43,11 +44,11 @@ void conv(const std::string& name, int tier, const std::string& hyp = "") {
     const auto s = mk_s<N>(in[3]);
     const tfel::material::tangent_operator<R, N, T> r = tfel::material::convert<R, S>(K, F0, F1, s);
     return fl(r);
-  }, tier, hyp);
+  }, tier, hyp, proof);
 }
 // round trip  S <- R <- S  (must be the identity)
 template <TO::Flag R, TO::Flag S, unsigned short N>
-void roundtrip(const std::string& name, int tier, const std::string& hyp) {
+void roundtrip(const std::string& name, int tier, const std::string& hyp, bool proof = true) {
   constexpr char ks = kind_of_flag(S);
   reg(name, N, std::string(1, ks) + "tts", ks, [](const auto& in) {
     using T = TSC;
@@ -58,7 +59,7 @@ void roundtrip(const std::string& name, int tier, const std::string& hyp) {
     const auto m = tfel::material::convert<R, S>(K, F0, F1, s);
     const tfel::material::tangent_operator<S, N, T> r = tfel::material::convert<S, R>(m, F0, F1, s);
     return fl(r);
-  }, tier, hyp);
+  }, tier, hyp, proof);
 }
 
 template <unsigned short N>
@@ -95,7 +96,7 @@ void reg_stress() {
     const auto F = mk_t<N>(in[1]);
     stensor<N, T> r = convertSecondPiolaKirchhoffStressToCauchyStress(convertCauchyStressToSecondPiolaKirchhoffStress(mk_s<N>(in[0]), F), F);
     return fl(r);
-  }, h, "det2 (full_t $N b) <> 0");
+  }, N == 3 ? 1 : 0, "det2 (full_t $N b) <> 0");
   reg("rt_pk2_cauchy", N, "st", 's', [](const auto& in) {  // PK2 -> Cauchy -> PK2
     using T = TSC;
     const auto F = mk_t<N>(in[1]);
@@ -106,12 +107,12 @@ void reg_stress() {
     using T = TSC;
     stensor<N, T> r = convertCorotationnalCauchyStressToSecondPiolaKirchhoffStress(mk_s<N>(in[0]), mk_s<N>(in[1]));
     return fl(r);
-  }, N == 1 ? 0 : 9, "det2 (full_s $N b) <> 0");  // N>1: the closing tactic cannot relate the Mandel determinant to det2 (not proved)
+  }, 0, "det2 (full_s $N b) <> 0", N == 1);  // N>1: execution only (the closing tactic cannot relate the Mandel determinant to det2; proved under C01)
   reg("pk2_to_corot", N, "ss", 's', [](const auto& in) {  // s = U S U / J
     using T = TSC;
     stensor<N, T> r = convertSecondPiolaKirchhoffStressToCorotationnalCauchyStress(mk_s<N>(in[0]), mk_s<N>(in[1]));
     return fl(r);
-  }, N == 1 ? 0 : 9, "det2 (full_s $N b) <> 0");
+  }, 0, "det2 (full_s $N b) <> 0", N == 1);
   // helpers of the converters
   reg("jaumann_moduli", N, "As", 'A', [](const auto& in) {  // convertSpatialModuliToKirchhoffJaumanRateModuli(C, tau)
     using T = TSC;
@@ -166,13 +167,15 @@ void reg_conv_a() {  // converters without inverse of F1 in the result (polynomi
 
 template <unsigned short N>
 void reg_conv_b() {  // converters through F1^-1 (expensive rational identities)
-  constexpr int t3 = 1;  // thorough tier only
+  constexpr int t3 = 1;  // thorough tier only (all N)
   conv<TO::DS_DEGL, TO::SPATIAL_MODULI, N>("DS_DEGL_from_SPATIAL_MODULI", t3, HF1);
   conv<TO::DTAU_DF, TO::DS_DF, N>("DTAU_DF_from_DS_DF", t3, HF1);
   conv<TO::DTAU_DF, TO::C_TAU_JAUMANN, N>("DTAU_DF_from_C_TAU_JAUMANN", t3, HF1);
   conv<TO::DTAU_DF, TO::ABAQUS, N>("DTAU_DF_from_ABAQUS", t3, HF1);
   conv<TO::DTAU_DF, TO::SPATIAL_MODULI, N>("DTAU_DF_from_SPATIAL_MODULI", t3, HF1);
-  conv<TO::DSIG_DF, TO::DS_DEGL, N>("DSIG_DF_from_DS_DEGL", t3, HF1);
+  // 3D: the composite DS_DEGL -> SPATIAL_MODULI -> DTAU_DF -> DSIG_DF (each step proved on its own, in 3D too) costs
+  // ~35 CPU-s per component x 54 components: execution only
+  conv<TO::DSIG_DF, TO::DS_DEGL, N>("DSIG_DF_from_DS_DEGL", t3, HF1, N != 3);
   conv<TO::DSIG_DF, TO::C_TRUESDELL, N>("DSIG_DF_from_C_TRUESDELL", t3, HF1);
   conv<TO::DSIG_DF, TO::ABAQUS, N>("DSIG_DF_from_ABAQUS", t3, HF1);
   conv<TO::DPK1_DF, TO::DSIG_DF, N>("DPK1_DF_from_DSIG_DF", t3, HF1);
@@ -191,7 +194,9 @@ void reg_roundtrips() {  // inverse pairs
   roundtrip<TO::ABAQUS, TO::C_TAU_JAUMANN, N>("rt_C_TAU_JAUMANN_ABAQUS", 0, HF1);
   roundtrip<TO::DSIG_DDF, TO::DSIG_DF, N>("rt_DSIG_DF_DSIG_DDF", t3, HF0);
   roundtrip<TO::DTAU_DDF, TO::DTAU_DF, N>("rt_DTAU_DF_DTAU_DDF", t3, HF0);
-  roundtrip<TO::SPATIAL_MODULI, TO::DS_DEGL, N>("rt_DS_DEGL_SPATIAL_MODULI", t3, HF1);
+  // 3D: push-forward by F then by F^-1 (both converters proved on their own, in 3D too); the identity needs
+  // F^-1 F = I under a degree-8 polynomial, ~550 CPU-s per component x 36 components: execution only
+  roundtrip<TO::SPATIAL_MODULI, TO::DS_DEGL, N>("rt_DS_DEGL_SPATIAL_MODULI", t3, HF1, N != 3);
   roundtrip<TO::DTAU_DF, TO::C_TAU_JAUMANN, N>("rt_C_TAU_JAUMANN_DTAU_DF", t3, HF1);
   roundtrip<TO::DTAU_DF, TO::SPATIAL_MODULI, N>("rt_SPATIAL_MODULI_DTAU_DF", t3, HF1);
 }
